@@ -418,6 +418,30 @@ func (c *Ctx) isMembershipFn(f *ssa.Function) (bool, []string) {
 	if f == nil || f.Blocks == nil || len(f.Params) < 2 {
 		return false, []string{"not a 2-parameter function"}
 	}
+	// a helper that only hands its two parameters to a membership function and returns its answer
+	if len(f.Blocks) == 1 && len(f.Params) == 2 {
+		var inner *ssa.Call
+		n := 0
+		for _, in := range f.Blocks[0].Instrs {
+			if cl, ok := in.(*ssa.Call); ok {
+				inner = cl
+				n++
+			}
+		}
+		if ret, ok := f.Blocks[0].Instrs[len(f.Blocks[0].Instrs)-1].(*ssa.Return); ok && n == 1 && len(ret.Results) == 1 && ret.Results[0] == ssa.Value(inner) && len(inner.Call.Args) == 2 {
+			fromParams := true
+			for _, a := range inner.Call.Args {
+				if _, isP := a.(*ssa.Parameter); !isP {
+					fromParams = false
+				}
+			}
+			if g := inner.Call.StaticCallee(); g != nil && g != f && fromParams {
+				if ok2, _ := c.isMembershipFn(g); ok2 {
+					return true, nil
+				}
+			}
+		}
+	}
 	lp := len(f.Params)
 	// (list, wanted) in either order: the list is the slice-typed one of the last two parameters
 	li, ei := lp-2, lp-1
@@ -1060,7 +1084,25 @@ func (c *Ctx) requestSchema(f *ssa.Function, typeSub string) *schemaRef {
 		if tup, ok := cl.Type().(*types.Tuple); ok && tup.Len() > 0 {
 			t = derefT(tup.At(0).Type())
 		}
-		return &schemaRef{SC: c.Path(cl, nil) + "#0", call: cl, dec: cl.Call.StaticCallee(), typ: t}
+		sc := c.Path(cl, nil) + "#0"
+		// a decoding helper that hands on what an inner (shared, generic) decoder handed back: the request is named
+		// after the inner call, in the helper's frame and here alike
+		if dec := cl.Call.StaticCallee(); dec != nil && inModule(dec) && dec.Blocks != nil {
+			if srs := successReturns(dec); len(srs) == 1 {
+				if ex, isEx := returnedValue(srs[0], 0).(*ssa.Extract); isEx {
+					if _, isCall := ex.Tuple.(*ssa.Call); isCall {
+						if c.inlineFns == nil {
+							c.inlineFns = map[*ssa.Function]bool{}
+						}
+						c.inlineFns[dec] = true
+						if ev := extractOf(cl, 0); ev != nil {
+							sc = c.Path(ev, nil)
+						}
+					}
+				}
+			}
+		}
+		return &schemaRef{SC: sc, call: cl, dec: cl.Call.StaticCallee(), typ: t}
 	}
 	for _, cl := range findCalls(f, func(cl *ssa.Call) bool {
 		g := cl.Call.StaticCallee()
